@@ -20,7 +20,7 @@
    rejected_load_no_effect_pinned_refuted). *)
 From Coq Require Import List.
 Import ListNotations.
-From MirV Require Import C13.Link C13.LinkProofs C13.BuildProofs C13.LinkExamples.
+From MirV Require Import C13.Link C13.LinkProofs C13.BuildProofs C13.LinkExamples C13.Reent C13.ReentProofs.
 
 (* For every history p - rejected loads, failed links and interface-less links included -, every
    Link step taken after it (whatever follows): the step's output is
@@ -214,3 +214,37 @@ Theorem local_ref_spec : forall ds m id, build ds = inl m ->
   (forall n, (forall k, In (k, n) ds -> is_def k = false) -> local_ref id m n = None).
 Proof. exact local_ref_spec_proof. Qed.
 Print Assumptions local_ref_spec.
+
+(* ---- Round 3 (wave 5): a link step whose import resolver itself loads modules (MIR_load_module
+   called from the resolver while MIR_link walks the queue; model C13/Reent.v [step_re]: the queue
+   walked by the binding loop grows at its end by what the resolver loads).
+
+   With a resolver that loads nothing the step is the Link step of the theorems above. *)
+Theorem reent_conservative : forall s r,
+  step_re s [] r = (fst (step true s (Link r)), routput_of (snd (step true s (Link r)))).
+Proof. exact reent_conservative_proof. Qed.
+Print Assumptions reent_conservative.
+
+(* A completed step leaves the queue empty and reports - and records - one binding list for EVERY
+   module it dequeued: the modules queued before the step followed by the modules the resolver
+   loaded during it, each with a non-NULL binding for every one of its imports, in import order.
+   (A link that reads the queue length once before its loops dequeues resolver-loaded modules
+   without binding them: seeded C13-z2.) *)
+Theorem reent_link_binds_every_dequeued_module : forall s sc fb bs res,
+  snd (step_re s sc fb) = RLinked bs res ->
+  let s' := fst (step_re s sc fb) in
+  to_link s' = [] /\ linked s' = linked s ++ bs /\ dead s' = false /\
+  exists new, Forall2 bound_ok (to_link s ++ new) bs.
+Proof. exact reent_binds_every_dequeued_module_proof. Qed.
+Print Assumptions reent_link_binds_every_dequeued_module.
+
+(* A failed step (undeclared_op_ref, or repeated_decl raised by a load the resolver performed)
+   dequeues nothing; what the resolver had loaded is queued behind the earlier modules and is bound
+   by the next completed link. *)
+Theorem reent_failed_link_keeps_queue : forall s sc fb x res,
+  snd (step_re s sc fb) = RFailed x res ->
+  let s' := fst (step_re s sc fb) in
+  linked s' = linked s /\ redef s' = redef s /\ dead s' = false /\
+  exists added, to_link s' = to_link s ++ added.
+Proof. exact reent_failed_keeps_queue_proof. Qed.
+Print Assumptions reent_failed_link_keeps_queue.
